@@ -499,6 +499,14 @@ def final_stores_under (repo, module, g, env, keyof, cls=None):
 _BUILTIN_VALUES = {'tuple': tuple, 'list': list, 'dict': dict, 'int': int, 'float': float, 'str': str, 'bytes': bytes,
                    'bool': bool, 'True': True, 'False': False, 'None': None, 'set': set}
 
+# definite failures met while evaluating on known values: a builtin / struct / pure-method call whose arguments were all known and which
+# raised.  Rules that ask "can this helper fail on that sample?" clear the list, evaluate the scenario, and look.  (text of the call, exception)
+RAISED = []
+def _note_raise (e, args, ex):
+  try:
+    if all(a is not OPAQUE for a in args): RAISED.append((norm(e)[:80], type(ex).__name__, str(ex)[:80]))
+  except Exception: pass
+
 def _eval_call (repo, module, e, env, cls):
   fn = e.func
   hook = getattr(env, 'call_hook', None)
@@ -518,7 +526,7 @@ def _eval_call (repo, module, e, env, cls):
       try:
         r_ = {'list': list, 'tuple': tuple, 'set': set, 'sorted': sorted, 'str': str, 'int': int, 'hex': hex, 'oct': oct, 'bin': bin, 'chr': chr, 'ord': ord, 'bytes': bytes, 'abs': abs, 'min': min, 'max': max, 'sum': sum, 'reversed': lambda x: list(reversed(x))}[fn.id](args[0])
         return r_
-      except Exception: raise _Unknown()
+      except Exception as ex_: _note_raise(e, args, ex_); raise _Unknown()
     if fn.id in ('range', 'min', 'max', 'zip', 'enumerate', 'divmod', 'pow') and 1 <= len(args) <= 3 and not (fn.id in ('min', 'max') and len(args) == 1):
       if any(a is OPAQUE for a in args): raise _Unknown()
       try:
@@ -528,7 +536,11 @@ def _eval_call (repo, module, e, env, cls):
           if len(r_) > 4096: raise _Unknown()
         return r_
       except _Unknown: raise
-      except Exception: raise _Unknown()
+      except Exception as ex_: _note_raise(e, args, ex_); raise _Unknown()
+    if fn.id == 'int' and len(args) == 2:
+      if any(a is OPAQUE for a in args): raise _Unknown()
+      try: return int(args[0], args[1])
+      except Exception as ex_: _note_raise(e, args, ex_); raise _Unknown()
     if fn.id in ('all', 'any') and len(args) == 1:
       try: vals = list(args[0])
       except Exception: raise _Unknown()
@@ -556,18 +568,27 @@ def _eval_call (repo, module, e, env, cls):
     args = [eval_env2(repo, module, a, env, cls) for a in e.args]
     if any(a is OPAQUE for a in args): raise _Unknown()
     try: return getattr(_struct, fn.attr)(*args)
-    except Exception: raise _Unknown()
+    except Exception as ex_: _note_raise(e, args, ex_); raise _Unknown()
   if isinstance(fn, ast.Attribute) and fn.attr in _PURE_METHODS and not e.keywords:
     base = eval_env2(repo, module, fn.value, env, cls)
     if type(base) in (str, bytes, list, tuple, dict, set, frozenset):
       args = [eval_env2(repo, module, a, env, cls) for a in e.args]
       try: return getattr(base, fn.attr)(*args)
-      except Exception: raise _Unknown()
+      except Exception as ex_: _note_raise(e, [base] + args, ex_); raise _Unknown()
+    if isinstance(base, int) and not isinstance(base, bool) and fn.attr in ('to_bytes', 'bit_length'):
+      args = [eval_env2(repo, module, a, env, cls) for a in e.args]
+      if any(a is OPAQUE for a in args): raise _Unknown()
+      try: return getattr(base, fn.attr)(*args)
+      except Exception as ex_: _note_raise(e, [base] + args, ex_); raise _Unknown()
+    if isinstance(base, bytes) and fn.attr == 'hex':
+      args = [eval_env2(repo, module, a, env, cls) for a in e.args]
+      try: return base.hex(*args)
+      except Exception as ex_: _note_raise(e, [base] + args, ex_); raise _Unknown()
   raise _Unknown()
 
 _PURE_METHODS = ('split', 'rsplit', 'join', 'partition', 'rpartition', 'count', 'startswith', 'endswith',
                  'lower', 'upper', 'strip', 'lstrip', 'rstrip', 'replace', 'find', 'index', 'get', 'isdigit',
-                 'keys', 'values', 'items', 'encode', 'decode', 'ljust', 'rjust', 'zfill', 'format')
+                 'keys', 'values', 'items', 'encode', 'decode', 'ljust', 'rjust', 'zfill', 'format', 'to_bytes', 'bit_length', 'hex')
 
 class Rec(dict):
   """a sample object for evaluation: attribute access reads the dict"""
